@@ -179,6 +179,9 @@ func (w *world) submit(sp execSpec) *execState {
 		pols = []failsafe.Policy[int]{w.cb}
 	}
 	ex := failsafe.NewExecutor[int](pols...).WithContext(ctx)
+	if sp.Beh == "precancel" {
+		cancel() // the caller had given up before the execution reached the breaker: an admitted trial is a trial all the same
+	}
 	st.sawOpen = w.openNow.Load()
 	go func() {
 		defer close(st.done)
@@ -219,7 +222,7 @@ func rejectedProperly(st *execState) bool {
 
 // selfFinishing: the trial ends without the harness doing anything (and records a result on its own).
 func selfFinishing(sp execSpec) bool {
-	return sp.Wrapper == "timeout-fires" || sp.Wrapper == "inner-bulkhead-full" || sp.Beh == "instant"
+	return sp.Wrapper == "timeout-fires" || sp.Wrapper == "inner-bulkhead-full" || sp.Beh == "instant" || sp.Beh == "precancel"
 }
 
 // recordsFailure: how the breaker (default conditions: any error is a failure) classifies the trial's result.
@@ -585,6 +588,9 @@ func genSpec(t *rapid.T, parked bool) execSpec {
 	}
 	if sp.Wrapper == "retry" && parked {
 		sp.Wrapper = "bare" // a retry would ask for a second permit after a failed trial: keep one trial per execution
+	}
+	if parked && sp.Wrapper == "bare" && rapid.IntRange(0, 5).Draw(t, "precancel") == 0 {
+		sp.Beh = "precancel" // instant, with a context that is already cancelled
 	}
 	return sp
 }
